@@ -761,3 +761,84 @@ func checkNoAccumulatorReset(c *Ctx, rule string, pkg string) {
 	}
 	c.Floor(rule, "loop-carried append accumulators in "+pkg, n, 3)
 }
+
+// checkArithmeticAccumulators: a numeric variable carried around a loop and updated there by addition or
+// subtraction (a running balance, a total) must be updated from its own previous value. `acc = base - x`
+// inside the loop (instead of `acc -= x`) overwrites the running value on every iteration: only the last
+// element's contribution survives (a confirmed fan-in spend debits only its last input from the balance).
+func checkArithmeticAccumulators(c *Ctx, rule string, pkg string) {
+	p := c.P
+	n := 0
+	for _, fn := range p.FuncsIn(pkg) {
+		for _, l := range loopsOf(fn) {
+			for _, ins := range l.Header.Instrs {
+				ph, ok := ins.(*ssa.Phi)
+				if !ok {
+					break
+				}
+				if b, ok := ph.Type().Underlying().(*types.Basic); !ok || b.Info()&types.IsInteger == 0 {
+					continue
+				}
+				for i, e := range ph.Edges {
+					if !l.Blocks[l.Header.Preds[i]] {
+						continue // entry edge
+					}
+					// does the back-edge value involve arithmetic at all, and does it depend on ph?
+					arith, dependsOnSelf := false, false
+					seen := map[ssa.Value]bool{}
+					var walk func(v ssa.Value)
+					walk = func(v ssa.Value) {
+						v = stripConv(v)
+						if seen[v] {
+							return
+						}
+						seen[v] = true
+						if v == ssa.Value(ph) {
+							dependsOnSelf = true
+							return
+						}
+						switch x := v.(type) {
+						case *ssa.BinOp:
+							if x.Op == token.ADD || x.Op == token.SUB {
+								arith = true
+							}
+							walk(x.X)
+							walk(x.Y)
+						case *ssa.Phi:
+							if l.Blocks[x.Block()] {
+								for _, e2 := range x.Edges {
+									walk(e2)
+								}
+							}
+						}
+					}
+					walk(e)
+					if !arith {
+						continue
+					}
+					// induction variables of the loop itself (i+1) trivially depend on themselves: still counted
+					n++
+					c.Check(rule, fmt.Sprintf("accumulator-updated-from-itself:%s/%s", fnName(fn), ph.Comment), ph.Pos(), dependsOnSelf,
+						fmt.Sprintf("in %s the loop-carried value %q is recomputed in the loop by arithmetic that does not involve its own previous value: every iteration overwrites the running result (only the last element counts)", fnName(fn), ph.Comment))
+				}
+			}
+		}
+	}
+	c.Floor(rule, "arithmetic loop-carried values in "+pkg, n, 10)
+}
+
+// checkLoopsHaveNoEarlyExit: every loop of the named function visits all elements (no break / early success return).
+func checkLoopsHaveNoEarlyExit(c *Ctx, rule string, fn *ssa.Function, what string) {
+	if fn == nil {
+		return
+	}
+	p := c.P
+	n := 0
+	for _, l := range loopsOf(fn) {
+		n++
+		exits := l.EarlyExits(p)
+		c.Check(rule, fmt.Sprintf("visits-every-element:%s#%d", fn.Name(), n), l.Header.Instrs[0].Pos(), len(exits) == 0,
+			what+": the loop can be left before all elements were looked at ("+strings.Join(exits, "; ")+")")
+	}
+	c.Floor(rule, "loops in "+fn.Name(), n, 1)
+}
